@@ -19,6 +19,7 @@ from __future__ import annotations
 import itertools
 
 import z3
+import wn._core as core
 
 import wn
 import wn.morphy as M
@@ -366,9 +367,14 @@ def call_bounded(sess: Session):
 
         def words(self):
             return [type('Word', (), {'pos': p, 'forms': (lambda self_, fs=fs: list(fs))})() for p, fs in self._w]
+    # real Form objects (str subclasses carrying id/script): set and dict look-ups with plain strings must find them
+    F = core.Form if hasattr(core, 'Form') else str
     inventory = [('n', ['glass']), ('n', ['miss']), ('a', ['free']), ('v', ['see', 'saw']), ('n', ['ox', 'oxen']),
                  ('v', ['run', 'ran']), ('n', ['goose', 'geese']), ('v', ['goose']), ('s', ['big']), ('n', ['saw']),
                  ('v', ['dress']), ('n', ['dress']), ('a', ['well', 'better']), ('a', ['good', 'better'])]
+    inventory = [(p, [F(x, script='Latn') if k % 2 else F(x) for k, x in enumerate(fs)] if F is not str else fs)
+                 for p, fs in inventory]
+    inventory[0] = ('n', [F('glass', id='f1', script='Latn')] if F is not str else ['glass'])
     ini = M.Morphy(W(inventory))
     lemmas, exc = {}, {}
     for p, fs in inventory:
@@ -401,6 +407,8 @@ def run(sess: Session):
             sess.unsupported(f'wn.morphy:{part}', str(exc))
     init_bounded(sess)
     call_bounded(sess)
+    from contracts import querychecks as _qc
+    _qc.run_result_checks(sess, PROP, {'find_entries'})     # Word.forms(): every form of the word, lemma first
     from contracts import C09 as c09
     try:
         c09.dedup_bounded(sess)
